@@ -38,3 +38,16 @@ package decoder
 //@   loop 1 decreases len(b) - offset
 //@ contract (*decoder.PathDecoder).hoverContentForLabel (d, i, block, bSchema) (content)
 //@   requires block != nil && bSchema != nil && 0 <= i && i < len(bSchema.Labels) && i < len(block.Labels)
+
+// ---- C20: signature help. Contract of the visitor closure of SignatureAtPos (free variables d, pos,
+// ---- file, signature); hclsyntax.VisitAll is pre-order, so a deeper call overwrites an outer one.
+//@ spec callOf(n hclsyntax.Node) *hclsyntax.FunctionCallExpr = as(n, "*hclsyntax.FunctionCallExpr")
+//@ spec isCall(n hclsyntax.Node) bool = typeis(n, "*hclsyntax.FunctionCallExpr")
+//@ contract (*decoder.PathDecoder).SignatureAtPos$1 (node) (diags)
+//@   requires d != nil && d.pathCtx != nil && file != nil && 0 <= pos.Byte && pos.Byte <= len(file.Bytes)
+//@   ensures [C20] implies(signature != old(signature), fresh(signature) && isCall(node) && node.Range().ContainsPos(pos))
+//@   ensures [C20] implies(signature != old(signature), haskey(d.pathCtx.Functions, callOf(node).Name))
+//@   ensures [C20] implies(signature != old(signature) && len(signature.Parameters) > 0, int(signature.ActiveParameter) < len(signature.Parameters))
+//@   ensures [C20] implies(signature != old(signature), len(signature.Parameters) == len(d.pathCtx.Functions[callOf(node).Name].Params) + ite(d.pathCtx.Functions[callOf(node).Name].VarParam != nil, 1, 0))
+//@   ensures [C20] implies(isCall(node) && node.Range().ContainsPos(pos) && haskey(d.pathCtx.Functions, callOf(node).Name) && len(d.pathCtx.Functions[callOf(node).Name].Params) == 0 && d.pathCtx.Functions[callOf(node).Name].VarParam == nil, signature != old(signature))
+//@   loop 2 invariant [C20] len(parameters) == rangeindex + 1 && fresh(parameters)
